@@ -248,12 +248,28 @@ func runCrash(it *CrashItem, ks *sut.KeySet, workRoot string) (res CrashResult) 
 	}
 	sort.Slice(cuts, func(i, j int) bool { return cuts[i] < cuts[j] })
 	if it.MaxCuts > 0 && len(cuts) > it.MaxCuts {
-		// keep an evenly spread subset, deterministic
-		step := float64(len(cuts)) / float64(it.MaxCuts)
-		sel := []int64{}
-		for i := 0; i < it.MaxCuts; i++ {
-			sel = append(sel, cuts[int(float64(i)*step)])
+		// keep an evenly spread subset, deterministic - but never drop the cuts at which a data-carrying
+		// record has its whole header and none / one byte / all but one byte of its data
+		keep := map[int64]bool{}
+		for _, r := range scan.Recs {
+			if r.DB > 0 {
+				he := (r.Off + r.HB) * 512
+				for _, c := range []int64{he, he + 1, he + r.Size - 1} {
+					if c <= scan.Bytes {
+						keep[c] = true
+					}
+				}
+			}
 		}
+		step := float64(len(cuts)) / float64(it.MaxCuts)
+		for i := 0; i < it.MaxCuts; i++ {
+			keep[cuts[int(float64(i)*step)]] = true
+		}
+		sel := make([]int64, 0, len(keep))
+		for c := range keep {
+			sel = append(sel, c)
+		}
+		sort.Slice(sel, func(i, j int) bool { return sel[i] < sel[j] })
 		cuts = sel
 	}
 	scratch := filepath.Join(dir, "cuts")
